@@ -160,6 +160,8 @@ func c14Run(o *out, c c14case) {
 	ec := c14NewEvents(c.kind, c.n, fc)
 	var objs []*events.Performance
 	var ops, added, final []string
+	var stream []byte
+	taken := 0
 	errs := ""
 	for _, op := range c.ops {
 		var in *events.Performance
@@ -174,6 +176,21 @@ func c14Run(o *out, c c14case) {
 			ops = append(ops, fmt.Sprintf("A:%d", op.idx))
 		case 'Z':
 			ops = append(ops, "Z")
+		case 'X':
+			// the caller takes what the wrapped collector holds and resets it (Resolve + Reset, the ordinary way of
+			// starting the next chunk by hand): the running totals and the sampling cadence are not the chunk's
+			ops = append(ops, "X")
+			for ; taken < len(w.writes); taken++ {
+				stream = append(stream, w.writes[taken]...)
+			}
+			if ec.Info().SampleCount > 0 {
+				if p, err := ec.Resolve(); err == nil {
+					stream = append(stream, p...)
+				}
+			}
+			ec.Reset()
+			errs += "x"
+			continue
 		}
 		if in != nil {
 			snapshot := *in
@@ -183,9 +200,8 @@ func c14Run(o *out, c c14case) {
 		errs += strconv.Itoa(b2i(err != nil))
 	}
 	// everything the wrapped collector produced: the writer log, then what is still buffered
-	var stream []byte
-	for _, wr := range w.writes {
-		stream = append(stream, wr...)
+	for ; taken < len(w.writes); taken++ {
+		stream = append(stream, w.writes[taken]...)
 	}
 	if ec.Info().SampleCount > 0 {
 		if p, err := ec.Resolve(); err == nil {
@@ -316,11 +332,14 @@ func (r *rng) c14Case() c14case {
 	again := []int{0, 10, 25, 50}[r.intn(4)]
 	nils := []int{0, 0, 8, 20}[r.intn(4)]
 	nobj := 0
+	resets := r.chance(1, 3) && !strings.Contains(c.under, "!")
 	for i := 0; i < nops; i++ {
 		x := r.intn(100)
 		switch {
 		case x < nils:
 			c.ops = append(c.ops, c14op{kind: 'Z'})
+		case x >= 96 && resets:
+			c.ops = append(c.ops, c14op{kind: 'X'})
 		case x < nils+again && nobj > 0:
 			idx := r.intn(nobj)
 			if r.chance(1, 3) {
@@ -392,6 +411,8 @@ func c14ParseCase(line string) (c14case, error) {
 		switch {
 		case t == "Z":
 			c.ops = append(c.ops, c14op{kind: 'Z'})
+		case t == "X":
+			c.ops = append(c.ops, c14op{kind: 'X'})
 		case strings.HasPrefix(t, "A:"):
 			i, err := strconv.Atoi(t[2:])
 			if err != nil || i < 0 || i >= nobj {
